@@ -819,11 +819,24 @@ class RewriteRuleSet:
                 # A replacement may return one of its inputs. replace_nodes_and_values gives
                 # every new output the name of the value it replaces, which would rename a
                 # graph input or output: return such a value through an Identity node instead.
-                if any(v.is_graph_input() or v.is_graph_output() for v in delta.new_outputs):
+                def _must_route(v: ir.Value) -> bool:
+                    # A value of an enclosing graph returned from inside a subgraph must not take
+                    # over the name (and the graph-output slot) of a value of the subgraph either.
+                    return (
+                        v.is_graph_input()
+                        or v.is_graph_output()
+                        or (
+                            isinstance(graph_or_function, ir.Graph)
+                            and v.graph is not None
+                            and v.graph is not graph_or_function
+                        )
+                    )
+
+                if any(_must_route(v) for v in delta.new_outputs):
                     new_nodes = list(delta.new_nodes)
                     new_outputs = list(delta.new_outputs)
                     for i, v in enumerate(new_outputs):
-                        if v.is_graph_input() or v.is_graph_output():
+                        if _must_route(v):
                             identity = ir.Node("", "Identity", [v])
                             new_nodes.append(identity)
                             new_outputs[i] = identity.outputs[0]
